@@ -76,7 +76,9 @@ func bigTypeAndValue(c bigCase) (*vh.TSpec, vh.Val) {
 		half := (n - 8) / 2
 		iv = vh.Val{L: []vh.Val{{S: bytes.Repeat([]byte{'a'}, half)}, {S: bytes.Repeat([]byte{'b'}, n-8-half)}, {I: -1}}}
 	}
-	ts := vh.StructOf(vh.F("X", 1, inner), vh.F("After", 2, vh.T(vh.KString)))
+	// the carrier field sometimes has an index that needs a 3- or 4-byte tag
+	xIndex := []int{1, 1, 2047, 2048, 262143, 262144}[int(c.Fill)%6]
+	ts := vh.StructOf(vh.F("X", xIndex, inner), vh.F("After", 2, vh.T(vh.KString)))
 	v := vh.Val{L: []vh.Val{iv, {S: []byte("after")}}}
 	for i := 0; i < c.Nested; i++ {
 		if i%2 == 0 {
